@@ -14,6 +14,7 @@ import ast
 from .. import astutil as au
 from ..tables import rule
 from . import analysis
+from ..carriers import local_roles, role
 
 rule("C04.b", "every value written to the asset column by an asset class is self.name, and every variable frame built in an "
               "asset class is given the asset column", floor=10, props=["C04", "C16"])
@@ -141,9 +142,10 @@ def run(ctx):
                 if isinstance(s2, ast.Assign) and isinstance(s2.value, ast.Call) and au.method_name(s2.value) == "concat" and frame in au.names_in(s2.value):
                     blk = p.parent(s2)
                     stmts = getattr(blk, "body", []) if s2 in getattr(blk, "body", []) else getattr(blk, "orelse", [])
-                    lo = [s3 for s3 in stmts if isinstance(s3, ast.Assign) and au.terminal(s3.targets[0]) == "l" and isinstance(s3.value, ast.Call)
+                    fr = local_roles(fn)
+                    lo = [s3 for s3 in stmts if isinstance(s3, ast.Assign) and role(s3.targets[0], fr) == "l" and isinstance(s3.value, ast.Call)
                           and au.method_name(s3.value) == "hstack"]
-                    hi = [s3 for s3 in stmts if isinstance(s3, ast.Assign) and au.terminal(s3.targets[0]) == "u" and isinstance(s3.value, ast.Call)
+                    hi = [s3 for s3 in stmts if isinstance(s3, ast.Assign) and role(s3.targets[0], fr) == "u" and isinstance(s3.value, ast.Call)
                           and au.method_name(s3.value) == "hstack"]
                     if not lo and not hi:
                         continue
